@@ -90,7 +90,7 @@ class Injector:
             if n != 1:
                 raise ExtractError('cannot name return value of %s' % qual)
             sig = sig2
-        self.s = self.s[:i] + sig.rstrip() + '\n' + text.rstrip('\n') + '\n    ' + self.s[j:]
+        self.s = self.s[:i] + sig.rstrip() + '\n/*@spec*/' + text.rstrip('\n') + '\n/*@endspec*/    ' + self.s[j:]
 
     def proof(self, qual, anchor, proof, occ=0, before=False):
         i, j, k = locate_fn(self.s, qual)
@@ -235,9 +235,9 @@ HARD_ERR_RE = re.compile(r'error(\[E\d+\])?: (?!.*(postcondition|precondition|as
                          r'decreases|unreachable|recommend|not satisfied|failed|might fail|possible|cannot show|resource limit|aborting due))', re.I)
 
 
-def run_one(path, fn_pattern, rlimit=None, timeout=900, extra=()):
+def run_one(path, fn_pattern, rlimit=None, timeout=900, extra=(), multiple_errors=3):
     cmd = [VERUS, path, '--verify-root', '--verify-function', fn_pattern, '--output-json', '--time',
-           '--num-threads', '1', '--multiple-errors', '3']
+           '--num-threads', '1', '--multiple-errors', str(multiple_errors), '--triggers-mode', 'silent']
     if rlimit:
         cmd += ['--rlimit', str(rlimit)]
     cmd += list(extra)
